@@ -312,7 +312,9 @@ def extra_stage(tier, rng, work):
     outs, problems = vlib.run_harness("c19e", cases, os.path.join(work, "e2e"), "release", timeout=1200, shards=4)
     # real sockets and real time: a scenario that fails is run a second time, alone, and only
     # counts if it fails again (the deterministic twin of the timer scenarios is op `fire` in-process)
-    suspects = [c for c in cases if outs.get(c.id) is None or outs[c.id]["viol"] or outs[c.id]["panic"] is not None]
+    KNOWN_OPEN = ("e2e-reactivated-listener-dead",)    # deterministic, listed in known_findings.json: not worth a retry
+    suspects = [c for c in cases if outs.get(c.id) is None or outs[c.id]["panic"] is not None
+                or any(v[0] not in KNOWN_OPEN for v in outs[c.id]["viol"])]
     retried = len(suspects)
     os.environ["C19E_RT_MS"] = "20000"      # the second run waits five times longer for every expected delivery
     try:
@@ -336,12 +338,12 @@ def extra_stage(tier, rng, work):
         delivered += sum(1 for ob in o["obs"] if len(ob) >= 4 and ob[0] == "send")
     for c in e2e_corpus():
         o = couts.get(c.id)
-        if o is not None and (o["viol"] or o["panic"] is not None):
+        if o is not None and (any(v[0] not in KNOWN_OPEN for v in o["viol"]) or o["panic"] is not None):
             # debug assertions on: confirm once more before reporting
             o2, _ = vlib.run_harness("c19e", [c], os.path.join(work, "e2e_retry"), "checked", timeout=300, shards=1)
             o2 = o2.get(c.id)
-            if o2 is not None and (o2["viol"] or o2["panic"] is not None):
-                for (vc, vt) in o2["viol"][:1]:
+            if o2 is not None and (any(v[0] not in KNOWN_OPEN for v in o2["viol"]) or o2["panic"] is not None):
+                for (vc, vt) in [v for v in o2["viol"] if v[0] not in KNOWN_OPEN][:1] or [("panic", o2["panic"] or "")]:
                     viols.append((c, "panic-checked", "debug build: " + vt))
     return dict(failures=failures, viols=viols, coverage=dict(e2e_cases=len(cases), e2e_datagrams_delivered=delivered, e2e_retried=retried))
 
